@@ -186,11 +186,16 @@ func runC03(c *Ctx) {
 	}
 
 	// ---- R3.4
+	// From the entry of the step machine the Init -> Upgrade store is reachable only through
+	// PatchStableService's success edges (err == nil AND retry == false; one query each), or for a
+	// step other than the first, a step without weight, or a configuration without generated canary
+	// Service. The cut is one disjunction, so a pin step that lives in a helper
+	// (`wait, err := m.pinStableService…(…)`) is judged by what each of the helper's ways of saying
+	// "go on" has passed.
 	for _, fn := range p.FuncsMatching("runCanary") {
 		if fn.Signature.Recv() == nil {
 			continue
 		}
-		inInit := stateIs(sc.init)
 		var upStores []*ssa.Store
 		for _, st := range FieldStores([]*ssa.Function{fn}, "", "CurrentStepState") {
 			if v, ok := StoredConst(st); ok && v == sc.upgrade {
@@ -205,42 +210,38 @@ func runC03(c *Ctx) {
 			}
 			return false
 		}
-		pins := CallsIn(fn, "trafficrouting.Manager.PatchStableService")
-		n := 0
-		for _, b := range fn.Blocks {
-			for k := range b.Succs {
-				if !EdgeFactMatches(b, k, FCmp("==", MField("CurrentStepIndex"), MConst("1"))) {
-					continue
-				}
-				if !HasFact(FactsFor(fn).At(b), inInit) {
-					continue
-				}
-				n++
-				ok := len(pins) > 0
-				det := "no PatchStableService call in the step machine"
-				if ok {
-					disabled := FTrue(MField("DisableGenerateCanaryService"))
-					var by []string
-					for _, pin := range pins {
-						for i, need := range []FactM{FNil(MResultOf(pin, 1)), FFalse(MResultOf(pin, 0))} {
-							need := need
-							reach, _ := CanReachCP(Point{Block: b.Succs[k]}, isUp, ReachOpts{CutEdge: func(bb *ssa.BasicBlock, kk int) bool {
-								return EdgeFactMatches(bb, kk, need) || EdgeFactMatches(bb, kk, disabled)
-							}})
-							if reach {
-								by = append(by, []string{"err == nil", "retry == false"}[i])
-							}
-						}
-					}
-					ok = len(by) == 0
-					det = ifs(!ok, "Upgrade state reachable from the first-step edge without PatchStableService "+strings.Join(by, ", "))
-				}
-				c.Ob("R3.4", FuncName(fn)+"#pin-stable-before-first-upgrade", b.Instrs[len(b.Instrs)-1].Pos(), ok, "stable Service pinned before the first traffic step creates pods", det)
+		pinned := false
+		for _, g := range samePkgClosure(p, fn) {
+			if len(CallsIn(g, "trafficrouting.Manager.PatchStableService")) > 0 {
+				pinned = true
 			}
 		}
-		if n == 0 {
-			c.Ob("R3.4", FuncName(fn)+"#pin-stable-before-first-upgrade[anchor]", fn.Pos(), false, "first-step guard in case StepInit", "anchor not found: no CurrentStepIndex == 1 edge under CurrentStepState == "+sc.init)
+		if len(upStores) == 0 {
+			c.Ob("R3.4", FuncName(fn)+"#pin-stable-before-first-upgrade[anchor]", fn.Pos(), false, "Init -> Upgrade store", "anchor not found")
+			continue
 		}
+		ok := pinned
+		det := "no PatchStableService call in the step machine"
+		if ok {
+			other := FOr(
+				FTrue(MField("DisableGenerateCanaryService")),
+				FCmp("!=", MField("CurrentStepIndex"), MConst("1")),
+				FNil(MField("Traffic")),
+			)
+			var by []string
+			for i, need := range []FactM{FNil(MResult("PatchStableService", 1)), FFalse(MResult("PatchStableService", 0))} {
+				cut := FOr(need, other)
+				reach, _ := CanReachCP(Entry(fn), isUp, ReachOpts{CutEdge: func(bb *ssa.BasicBlock, kk int) bool {
+					return EdgeFactMatches(bb, kk, cut)
+				}})
+				if reach {
+					by = append(by, []string{"err == nil", "retry == false"}[i])
+				}
+			}
+			ok = len(by) == 0
+			det = ifs(!ok, "Upgrade state reachable for a first step with a weight without PatchStableService "+strings.Join(by, ", "))
+		}
+		c.Ob("R3.4", FuncName(fn)+"#pin-stable-before-first-upgrade", upStores[0].Pos(), ok, "stable Service pinned before the first traffic step creates pods", det)
 	}
 }
 
